@@ -7,7 +7,7 @@ import session
 import explore
 from props import session_common as sc
 
-COQ_TARGETS = ['props/C05.vo']
+COQ_TARGETS = ['props/C05.vo', 'model/YSessionSx.vo']
 TRUSTED = sc.TRUSTED
 ASSUMPTIONS = sc.ASSUMPTIONS
 M = sc.ALL_MSGS
